@@ -15,6 +15,11 @@ type Handle struct {
 	Kind  string
 	Ord   int
 	probe int
+	// simulated loaders: LoaderHook runs inside LoadConfig (after the fault check); Data2, if
+	// set, is what the loader supplies once the application has switched it over (Data2Active).
+	LoaderHook  func()
+	Data2       []byte
+	Data2Active bool
 	// SeenComponents / SeenScanners: what a processor's component-factory hook found registered.
 	SeenComponents, SeenScanners int
 	// OrdFinal, if set, replaces Ord once the instance's initialization callback has run.
